@@ -12,7 +12,7 @@ def main():
         ov = os.path.join(slot.scratch, 'ov_setup')
         overlay.make_overlay(ov)  # every harness part: also proves that all harnesses compile on the pinned tree
         lf = os.path.join(driver.CACHE, 'setup_codegen.log')
-        rc, to, dt = driver.run_capped(['cargo', 'kani', '--target-dir', slot.kani_target, '--only-codegen'], ov, lf, 3600)
+        rc, to, dt = driver.run_capped(['cargo', 'kani', '--target-dir', slot.kani_target, '-Z', 'stubbing', '--only-codegen'], ov, lf, 3600)
         print('kani codegen of all harness parts: rc=%s %.0fs (log %s)' % (rc, dt, lf))
         if rc != 0:
             print(open(lf).read()[-3000:])
